@@ -1647,16 +1647,17 @@ fn handle_set_working_directory(
         }
 
         let file_in_workingdir = relative_to_file.absolute_from_unit(quadlet_unit_file);
+        let working_dir = file_in_workingdir.parent().ok_or_else(|| {
+            ConversionError::UnsupportedValueForKey(
+                "SetWorkingDirectory".to_string(),
+                set_working_directory.to_string(),
+            )
+        })?;
 
         service_unit_file.add(
             SERVICE_SECTION,
             "WorkingDirectory",
-            file_in_workingdir
-                .parent()
-                .expect("should have a parent directory")
-                .display()
-                .to_string()
-                .as_str(),
+            working_dir.display().to_string().as_str(),
         );
     }
 
